@@ -1085,7 +1085,18 @@ def main(tier: str) -> int:
         for i, r in enumerate(recs):
             for f in r[1]:
                 _report(v, f, {"kind": "trace", "events": r[0], "instantiation": r[2]})
-        ntr, tres = validate_traces(traces, t_en, t_dc, scratch, v, [r[2] for r in recs])
+        try:
+            ntr, tres = validate_traces(traces, t_en, t_dc, scratch, v, [r[2] for r in recs])
+        except MachineryError as ex:
+            # histories recorded from code that already broke P-clauses in this run can be ill-formed for
+            # the trace specification (TLC then stops with an evaluation error); the violations found so
+            # far stand and are the verdict.  With no violation a failure here stays a machinery failure.
+            if not v.violations:
+                raise
+            import types
+            ntr, tres = 0, types.SimpleNamespace(distinct=0, generated=0, wall_s=0.0)
+            v.note("trace validation could not run on the recorded histories after violations were found: "
+                   + str(ex).splitlines()[0])
         v.note(f"{ntr} recorded histories ({sum(map(len, traces))} events) validated by TLC, "
                f"{tres.distinct} states, {tres.wall_s:.1f}s")
     sample_edge = edges[len(edges) // 2]
